@@ -1,6 +1,7 @@
 import CryoCat.Model.C05
 import CryoCat.Lemmas.C05
 import CryoCat.Lemmas.C05_Euler
+import CryoCat.Lemmas.C05_History
 /-! C05 — pose bookkeeping: property theorems (only theorems and non-vacuity examples).
 
 `S : Svc α` bundles the numeric services the code takes from scipy / decimal (cos/sin in degrees,
@@ -49,6 +50,10 @@ theorem flip_source_form :
     Gen.C05.flipOffset = 1 ∧ Gen.C05.flipNegatesTheta = true ∧ Gen.C05.flipMirrorBranches = 2 ∧
     Gen.C05.flipShiftBranches = 2 := by decide
 
+/-- with dimensions, `flip_handedness` converts the z column to floating point exactly once, before either mirror branch
+(the mirrored coordinate is a float; a `.loc[…, "z"] = floats` assignment into an integer-typed column raises under pandas 3) -/
+theorem flip_makes_z_float : Gen.C05.flipFloatCasts = 1 := by decide
+
 /-- names and default values of the parameters of every function the adapter calls: `shift_positions(shift, inplace=True)`,
 `flip_handedness(tomo_dimensions=None)`, `get_coordinates/get_angles/get_rotations(tomo_number=None)`,
 `dimensions_load(input_dims, tomo_idx=None)` — the correspondence run omits these keywords in a share of its calls -/
@@ -58,11 +63,13 @@ theorem signatures_documented : Gen.C05.signatures =
      ("Motl.scale_coordinates", "scaling_factor", ""), ("Motl.shift_positions", "shift", ""),
      ("Motl.shift_positions", "inplace", "True"), ("Motl.apply_rotation", "rotation", ""),
      ("Motl.flip_handedness", "tomo_dimensions", "None"), ("dimensions_load", "input_dims", ""),
-     ("dimensions_load", "tomo_idx", "None")] := by decide
+     ("dimensions_load", "tomo_idx", "None"), ("imod_com_read", "filename", "")] := by decide
 
-/-! whole bodies of the anchored functions, alpha-normalised: an added early return, a hoisted statement, a swapped
-branch changes these; renaming a local variable does not -/
-/-- `get_coordinates`: x y z values + shift values, for all particles or those of one tomogram (local names normalised to v0, v1, …) -/
+/-! whole bodies of the anchored functions in canonical form (anchors, not clauses of the statement): docstrings, decorators and
+type annotations dropped, the texts of exception / warning messages replaced by `<message>`, `not (a is None)` written
+`a is not None`, local names replaced by v0, v1, … in the order of their first binding occurrence in the source. An added early
+return, a hoisted statement, a swapped branch changes these; renaming a local, adding a type hint or rewording a message does not. -/
+/-- `get_coordinates`: x y z values + shift values, for all particles or those of one tomogram (canonical form, see above) -/
 theorem get_coordinates_body_documented : Gen.C05.getCoordinatesBody = [
   "def get_coordinates(self, v0=None):",
   "    if v0 is None:",
@@ -71,7 +78,7 @@ theorem get_coordinates_body_documented : Gen.C05.getCoordinatesBody = [
   "        v1 = self.df.loc[self.df.loc[:, 'tomo_id'] == v0, ['x', 'y', 'z']].values + self.df.loc[self.df.loc[:, 'tomo_id'] == v0, ['shift_x', 'shift_y', 'shift_z']].values",
   "    return v1"] := rfl
 
-/-- `get_angles`: the phi, theta, psi columns, for all particles or those of one tomogram (local names normalised to v0, v1, …) -/
+/-- `get_angles`: the phi, theta, psi columns, for all particles or those of one tomogram (canonical form, see above) -/
 theorem get_angles_body_documented : Gen.C05.getAnglesBody = [
   "def get_angles(self, v0=None):",
   "    if v0 is None:",
@@ -80,7 +87,7 @@ theorem get_angles_body_documented : Gen.C05.getAnglesBody = [
   "        v1 = self.df.loc[self.df.loc[:, 'tomo_id'] == v0, ['phi', 'theta', 'psi']].values",
   "    return np.atleast_2d(v1)"] := rfl
 
-/-- `get_rotations`: from_euler("zxz", get_angles, degrees) (empty list for an empty selection) (local names normalised to v0, v1, …) -/
+/-- `get_rotations`: from_euler("zxz", get_angles, degrees) (empty list for an empty selection) (canonical form, see above) -/
 theorem get_rotations_body_documented : Gen.C05.getRotationsBody = [
   "def get_rotations(self, v0=None):",
   "    v1 = self.get_angles(v0)",
@@ -89,7 +96,7 @@ theorem get_rotations_body_documented : Gen.C05.getRotationsBody = [
   "    v2 = rot.from_euler('zxz', v1, degrees=True)",
   "    return v2"] := rfl
 
-/-- `update_coordinates`: the whole body (no early return, no extra statement) (local names normalised to v0, v1, …) -/
+/-- `update_coordinates`: the whole body (no early return, no extra statement) (canonical form, see above) -/
 theorem update_body_documented : Gen.C05.updateBody = [
   "def update_coordinates(self):",
   "    def v0(v1):",
@@ -97,17 +104,17 @@ theorem update_body_documented : Gen.C05.updateBody = [
   "        v3 = v1['x'] + v1['shift_x']",
   "        v4 = v1['y'] + v1['shift_y']",
   "        v5 = v1['z'] + v1['shift_z']",
-  "        v2['x'] = float(decimal.Decimal(v3).to_integral_value(rounding=decimal.ROUND_HALF_UP))",
-  "        v2['y'] = float(decimal.Decimal(v4).to_integral_value(rounding=decimal.ROUND_HALF_UP))",
-  "        v2['z'] = float(decimal.Decimal(v5).to_integral_value(rounding=decimal.ROUND_HALF_UP))",
+  "        v2['x'] = float(decimal.Decimal(float(v3)).to_integral_value(rounding=decimal.ROUND_HALF_UP))",
+  "        v2['y'] = float(decimal.Decimal(float(v4)).to_integral_value(rounding=decimal.ROUND_HALF_UP))",
+  "        v2['z'] = float(decimal.Decimal(float(v5)).to_integral_value(rounding=decimal.ROUND_HALF_UP))",
   "        v2['shift_x'] = v3 - v2['x']",
   "        v2['shift_y'] = v4 - v2['y']",
   "        v2['shift_z'] = v5 - v2['z']",
   "        return v2",
   "    self.df = self.df.apply(v0, axis=1)",
-  "    warnings.warn('The coordinates for subtomogram extraction were changed, new extraction is necessary!')"] := rfl
+  "    warnings.warn('<message>')"] := rfl
 
-/-- `scale_coordinates`: the whole body (local names normalised to v0, v1, …) -/
+/-- `scale_coordinates`: the whole body (canonical form, see above) -/
 theorem scale_body_documented : Gen.C05.scaleBody = [
   "def scale_coordinates(self, v0):",
   "    for v1 in ('x', 'y', 'z'):",
@@ -115,11 +122,12 @@ theorem scale_body_documented : Gen.C05.scaleBody = [
   "        v2 = 'shift_' + v1",
   "        self.df[v2] = self.df[v2] * v0"] := rfl
 
-/-- `shift_positions`: the whole body — row function, both entry points, index reset (local names normalised to v0, v1, …) -/
+/-- `shift_positions`: the whole body — row function (row made floating point first), both entry points, index reset (canonical form, see above) -/
 theorem shift_body_documented : Gen.C05.shiftBody = [
-  "def shift_positions(self, v1, v2=True):",
-  "    def v0(v3):",
-  "        v4 = np.array(v1)",
+  "def shift_positions(self, v0, v1=True):",
+  "    def v2(v3):",
+  "        v3 = v3.astype(float)",
+  "        v4 = np.array(v0)",
   "        v5 = np.array([[v3['phi'], v3['theta'], v3['psi']]])",
   "        v6 = rot.from_euler(seq='zxz', angles=v5, degrees=True)",
   "        v7 = v6.apply(v4)",
@@ -127,30 +135,31 @@ theorem shift_body_documented : Gen.C05.shiftBody = [
   "        v3['shift_y'] = v3['shift_y'] + v7[0][1]",
   "        v3['shift_z'] = v3['shift_z'] + v7[0][2]",
   "        return v3",
-  "    if v2:",
-  "        self.df = self.df.apply(v0, axis=1).reset_index(drop=True)",
+  "    if v1:",
+  "        self.df = self.df.apply(v2, axis=1).reset_index(drop=True)",
   "    else:",
   "        v8 = copy.deepcopy(self)",
-  "        v8.df = v8.df.apply(v0, axis=1).reset_index(drop=True)",
+  "        v8.df = v8.df.apply(v2, axis=1).reset_index(drop=True)",
   "        return v8"] := rfl
 
-/-- `apply_rotation`: the whole body (local names normalised to v0, v1, …) -/
+/-- `apply_rotation`: the whole body; the three angle columns are assigned as a whole (integer-typed columns become float) (canonical form, see above) -/
 theorem rotate_body_documented : Gen.C05.rotateBody = [
   "def apply_rotation(self, v0):",
   "    if not isinstance(v0, rot):",
-  "        raise ValueError('rotation must be an instance of scipy.spatial.transform.Rotation')",
+  "        raise ValueError('<message>')",
   "    v1 = self.df.loc[:, ['phi', 'theta', 'psi']].to_numpy()",
   "    v2 = rot.from_euler('zxz', v1, degrees=True)",
   "    v3 = v2 * v0",
   "    v1 = v3.as_euler('zxz', degrees=True)",
-  "    self.df.loc[:, ['phi', 'theta', 'psi']] = v1"] := rfl
+  "    self.df[['phi', 'theta', 'psi']] = v1"] := rfl
 
-/-- `flip_handedness`: the whole body — theta, then per branch mirror plane, z and shift_z (local names normalised to v0, v1, …) -/
+/-- `flip_handedness`: the whole body — theta, z made floating point, then per branch mirror plane, z and shift_z (canonical form, see above) -/
 theorem flip_body_documented : Gen.C05.flipBody = [
   "def flip_handedness(self, v0=None):",
   "    self.df.loc[:, 'theta'] = -self.df.loc[:, 'theta']",
   "    if v0 is not None:",
   "        v1 = ioutils.dimensions_load(v0)",
+  "        self.df['z'] = self.df['z'].astype(float)",
   "        if v1.shape == (1, 3):",
   "            v2 = float(v1['z'].iloc[0]) + 1",
   "            self.df.loc[:, 'z'] = v2 - self.df.loc[:, 'z']",
@@ -162,25 +171,24 @@ theorem flip_body_documented : Gen.C05.flipBody = [
   "                self.df.loc[self.df['tomo_id'] == v4, 'z'] = v2 - self.df.loc[self.df['tomo_id'] == v4, 'z']",
   "                self.df.loc[self.df['tomo_id'] == v4, 'shift_z'] = -self.df.loc[self.df['tomo_id'] == v4, 'shift_z']"] := rfl
 
-/-- `ioutils.dimensions_load`: every input form (DataFrame as is, .com, text file, list, ndarray) and the column naming (local names normalised to v0, v1, …) -/
+/-- `ioutils.dimensions_load`: every input form (DataFrame as is, .com, text file, any array-like through np.asarray) and the column naming (canonical form, see above) -/
 theorem dimensions_load_body_documented : Gen.C05.dimensionsLoadBody = [
   "def dimensions_load(v0, v1=None):",
   "    if isinstance(v0, pd.DataFrame):",
   "        v2 = v0",
   "    elif isinstance(v0, str):",
   "        if v0.endswith('.com'):",
-  "            v5 = imod_com_read(v0)",
+  "            v3 = imod_com_read(v0)",
   "            v2 = np.zeros((1, 3))",
-  "            v2[0, 0:2] = v5['FULLIMAGE']",
-  "            v2[0, 2] = v5['THICKNESS'][0]",
+  "            v2[0, 0:2] = v3['FULLIMAGE']",
+  "            v2[0, 2] = v3['THICKNESS'][0]",
   "            v2 = pd.DataFrame(v2)",
   "        elif os.path.isfile(v0):",
   "            v2 = pd.read_csv(v0, sep='\\\\s+', header=None, dtype=float)",
   "        else:",
-  "            raise ValueError(f'The file at the path {v0} does not exist.')",
-  "    elif isinstance(v0, list):",
-  "        v2 = pd.DataFrame(np.reshape(np.asarray(v0), (1, len(v0))))",
+  "            raise ValueError('<message>')",
   "    else:",
+  "        v0 = np.asarray(v0)",
   "        if v0.ndim == 1:",
   "            v0 = np.reshape(v0, (1, v0.shape[0]))",
   "        v2 = pd.DataFrame(v0)",
@@ -189,14 +197,28 @@ theorem dimensions_load_body_documented : Gen.C05.dimensionsLoadBody = [
   "    elif v2.shape[1] == 4:",
   "        v2.columns = ['tomo_id', 'x', 'y', 'z']",
   "    else:",
-  "        raise ValueError(f'The dimensions should have shape of 1x3 or Nx4, where N is number of tomograms.Instead following shape was extracted from the prvoided files: {v2.shape}.')",
+  "        raise ValueError('<message>')",
   "    if v1 is not None:",
-  "        v3 = tlt_load(v1).astype(int)",
+  "        v4 = tlt_load(v1).astype(int)",
   "        if 'tomo_id' not in v2.columns:",
-  "            v4 = np.repeat(v2[['x', 'y', 'z']].values, len(v3), axis=0)",
-  "            v2 = pd.DataFrame(v4, columns=['x', 'y', 'z'])",
-  "            v2['tomo_id'] = v3",
+  "            v5 = np.repeat(v2[['x', 'y', 'z']].values, len(v4), axis=0)",
+  "            v2 = pd.DataFrame(v5, columns=['x', 'y', 'z'])",
+  "            v2['tomo_id'] = v4",
   "    return v2"] := rfl
+
+/-- `ioutils.imod_com_read` (the .com path of `dimensions_load`): comment / command lines skipped, first word = key, numbers typed (canonical form, see above) -/
+theorem imod_com_read_body_documented : Gen.C05.imodComReadBody = [
+  "def imod_com_read(v0):",
+  "    v1 = {}",
+  "    with open(v0, 'r') as v2:",
+  "        for v3 in v2:",
+  "            if v3.startswith('#') or v3.startswith('$'):",
+  "                continue",
+  "            v4 = v3.split()",
+  "            v5 = v4[0]",
+  "            v6 = [int(v7) if v7.isdigit() else float(v7) if is_float(v7) else v7 for v7 in v4[1:]]",
+  "            v1[v5] = v6",
+  "    return v1"] := rfl
 
 /-! ### update_coordinates -/
 section ring
@@ -624,6 +646,162 @@ theorem update_spec_real (p : Particle ℝ) :
 theorem rotate_rotate_real (q₁ q₂ : M3 ℝ) (h₁ : IsRot q₁) (p : Particle ℝ) :
     rotateP realSvc q₂ (rotateP realSvc q₁ p) = rotateP realSvc (q₁ * q₂) p :=
   rotate_rotate realSvc q₁ q₂ p (realSvc_eulerOK _ ((orient_isRot realSvc realSvc_unit p).mul h₁))
+
+
+/-! ### `dimensions_load`: the shape dispatch that decides which branch of `flip_handedness` runs
+
+`loadDims` is executed by the driver on the raw table of every `flip_handedness` call of the correspondence run (the
+harness no longer pre-digests the argument) and compared with `ioutils.dimensions_load` called directly. -/
+
+/-- a 1 × 3 table is one `x y z` triple: every particle is mirrored at `z + 1` -/
+theorem loadDims_triple {α : Type} (x y z : α) : loadDims [[x, y, z]] = some (Dims.single z) := rfl
+
+/-- an N × 4 table (N ≥ 1) is rows `tomo_id x y z`, kept in order (so `dimOf` finds the FIRST row of a tomogram) -/
+theorem loadDims_table {α : Type} (r : α × α × α × α) (rows : List (α × α × α × α)) :
+    loadDims ((r :: rows).map (fun q => [q.1, q.2.1, q.2.2.1, q.2.2.2])) =
+      some (Dims.table ((r :: rows).map (fun q => (q.1, q.2.2.2)))) := by
+  have hm : ∀ l : List (α × α × α × α),
+      (l.map (fun q => [q.1, q.2.1, q.2.2.1, q.2.2.2])).mapM row4? = some (l.map (fun q => (q.1, q.2.2.2))) := by
+    intro l
+    induction l with
+    | nil => rfl
+    | cons a l ih => simp only [List.map_cons, List.mapM_cons, row4?, ih]; rfl
+  have := hm (r :: rows)
+  simp only [List.map_cons] at this ⊢
+  unfold loadDims
+  split
+  · rename_i h; simp at h
+  · rename_i h; simp at h
+  · simp only [this, Option.map_some]
+
+/-- every other shape is refused (`ValueError` in the code): no rows at all, or a row that has not exactly four entries
+while the table is not a single triple -/
+theorem loadDims_refuses {α : Type} (rows : List (List α)) (h3 : ∀ x y z, rows ≠ [[x, y, z]])
+    (hbad : ∃ r ∈ rows, r.length ≠ 4) : loadDims rows = none := by
+  have hm : ∀ l : List (List α), (∃ r ∈ l, r.length ≠ 4) → l.mapM row4? = none := by
+    intro l
+    induction l with
+    | nil => intro ⟨_, h, _⟩; cases h
+    | cons a l ih =>
+      intro ⟨r, hr, hlen⟩
+      simp only [List.mapM_cons]
+      cases ha : row4? a with
+      | none => rfl
+      | some v =>
+        have ha4 : a.length = 4 := by
+          match a, ha with
+          | [_, _, _, _], _ => rfl
+        rcases List.mem_cons.1 hr with rfl | hr'
+        · exact absurd ha4 hlen
+        · rw [ih ⟨r, hr', hlen⟩]; rfl
+  unfold loadDims
+  split
+  · rfl
+  · rename_i x y z; exact absurd rfl (h3 x y z)
+  · rw [hm rows hbad]; rfl
+
+example : loadDims [[(512 : Rat), 480, 300]] = some (Dims.single 300) := rfl
+example : loadDims [[(2 : Rat), 512, 480, 300], [1, 512, 480, 200]] = some (Dims.table [(2, 300), (1, 200)]) := rfl
+example : loadDims [[(2 : Rat), 512, 480, 300]] = some (Dims.table [(2, 300)]) := rfl
+example : loadDims [[(512 : Rat), 480]] = none ∧ loadDims [[(1 : Rat), 2, 3], [4, 5, 6]] = none ∧ loadDims ([] : List (List Rat)) = none := ⟨rfl, rfl, rfl⟩
+
+/-! ### histories with flips: two successive flips cancel, the parity of the number of flips decides the handedness
+
+`Lemmas/C05_History`: `pushFlips` removes the flips of a history and replaces every operation that follows an odd number
+of them by its mirror image `conjOp` (shift s ↦ shift (Mz s), rotate Q ↦ rotate (Mz Q Mz), update unchanged). -/
+section history
+variable {α : Type} [CommRing α] [DecidableEq α] (S : Svc α)
+
+/-- **flip ∘ flip = id inside any history** (whole 20-field records, no hypothesis): two successive `flip_handedness` calls with
+the same dimensions can be deleted wherever they stand -/
+theorem flip_flip_in_history (a b : List (Op α)) (d : Dims α) (m : Motl α) :
+    runOps S (a ++ Op.flip d :: Op.flip d :: b) m = runOps S (a ++ b) m :=
+  runOps_flip_flip_cancel S a b d m
+
+/-- n flips in a row: the list itself for even n, one flip for odd n (whole records, no hypothesis) -/
+theorem flips_parity (n : Nat) (d : Dims α) (m : Motl α) :
+    runOps S (List.replicate n (Op.flip d)) m = if n % 2 = 0 then m else applyOp S (.flip d) m :=
+  runOps_flips_parity S n d m
+
+/-- statement level: "flip then op" is "mirror-image op then flip" for every op that is neither a flip nor a scaling -/
+theorem spec_flip_then_op (d : Dims α) (op : Op α) (P : Pose α) (hf : isFlip op = false) (hs : isScale op = false) :
+    (specOp (.flip d) P).bind (specOp op) = (specOp (conjOp op) P).bind (specOp (.flip d)) :=
+  spec_flip_conj d op P hf hs
+
+/-- scaling is excluded for a reason: the mirror plane `dim_z + 1` does not scale with the coordinates, so flip and scale do
+not commute already at the level of the statement (a concrete instance, not a general law) -/
+theorem spec_flip_scale_counterexample :
+    (specOp (.flip (.single (1 : Rat))) ⟨⟨0, 0, 0⟩, M3.one, 0⟩).bind (specOp (.scale 2)) ≠
+    (specOp (.scale (2 : Rat)) ⟨⟨0, 0, 0⟩, M3.one, 0⟩).bind (specOp (.flip (.single 1))) :=
+  spec_flip_scale_not_commute
+
+/-- **composition law for histories with flips** (statement level): in a history without scalings whose flips all use the same
+mirror plane `dz` for the particle's tomogram, every flip can be moved to the end; what remains is the flip-free history
+`pushFlips false ops`, followed by ONE flip if the number of flips is odd and by nothing if it is even -/
+theorem spec_history_flip_parity (ops : List (Op α)) (P : Pose α) (dz : α)
+    (hflip : ∀ d', Op.flip d' ∈ ops → specDim d' P.tomo = some dz) (hns : ∀ op ∈ ops, isScale op = false)
+    (d : Dims α) (hd : specDim d P.tomo = some dz) :
+    specRun ops P = (specRun (pushFlips false ops) P).bind
+      (fun P' => if flipCount ops % 2 = 0 then some P' else specOp (.flip d) P') :=
+  specRun_flips_to_end ops P dz hflip hns d hd
+
+/-- **the same for the model** (corollary of the refinement theorem `absPose_runOpsP`): the pose of a particle after such a
+history is the pose the flip-free history `pushFlips false ops` gives, mirrored iff the number of flips is odd.
+Hypotheses: cos even / sin odd, the Euler round trip for the products the history forms (`RunOK`), no scaling, one mirror plane. -/
+theorem history_flip_parity (hc : CsOdd S) (ops : List (Op α)) (p : Particle α) (h : RunOK S ops p) (dz : α)
+    (hflip : ∀ d', Op.flip d' ∈ ops → specDim d' p.tomo_id = some dz) (hns : ∀ op ∈ ops, isScale op = false)
+    (d : Dims α) (hd : specDim d p.tomo_id = some dz) :
+    some (absPose S (runOpsP S ops p)) = (specRun (pushFlips false ops) (absPose S p)).bind
+      (fun P' => if flipCount ops % 2 = 0 then some P' else specOp (.flip d) P') :=
+  absPose_runOpsP_flips_to_end S ops p
+    (absPose_runOpsP S hc ops p h (by
+      intro op hop
+      cases op with
+      | flip d' => simp only [covers, hflip d' hop, Option.isSome_some]
+      | _ => rfl)) dz hflip hns d hd
+
+/-- **the same for a whole particle list** (any number of particles in any number of tomograms, each tomogram with its own
+mirror plane `dzOf t`): the poses after the history are, particle by particle and in the same order, the poses of the
+flip-free history, mirrored iff the number of flips is odd -/
+theorem history_flip_parity_list (hc : CsOdd S) (ops : List (Op α)) (m : Motl α) (h : ∀ p ∈ m, RunOK S ops p) (dzOf : α → α)
+    (hflip : ∀ p ∈ m, ∀ d', Op.flip d' ∈ ops → specDim d' p.tomo_id = some (dzOf p.tomo_id))
+    (hns : ∀ op ∈ ops, isScale op = false) (d : Dims α) (hd : ∀ p ∈ m, specDim d p.tomo_id = some (dzOf p.tomo_id)) :
+    (runOps S ops m).map (fun p => some (absPose S p)) =
+      m.map (fun p => (specRun (pushFlips false ops) (absPose S p)).bind
+        (fun P' => if flipCount ops % 2 = 0 then some P' else specOp (.flip d) P')) := by
+  rw [runOps_eq_map, List.map_map]
+  apply List.map_congr_left
+  intro p hp
+  exact history_flip_parity S hc ops p (h p hp) (dzOf p.tomo_id) (hflip p hp) hns d (hd p hp)
+
+/-- a history that consists of flips only (possibly with different tables that agree on the plane): identity for an even
+number, one flip for an odd number — at the level of the statement -/
+theorem spec_only_flips (ops : List (Op α)) (P : Pose α) (dz : α) (hall : ∀ op ∈ ops, isFlip op = true)
+    (hflip : ∀ d', Op.flip d' ∈ ops → specDim d' P.tomo = some dz) (d : Dims α) (hd : specDim d P.tomo = some dz) :
+    specRun ops P = if ops.length % 2 = 0 then some P else specOp (.flip d) P :=
+  specRun_only_flips ops P dz hall hflip d hd
+
+end history
+
+/-- over ℝ the history law needs no assumption on the numeric services: proper rotations as `apply_rotation` arguments suffice -/
+theorem history_flip_parity_real (ops : List (Op ℝ)) (hq : ∀ q, Op.rotate q ∈ ops → IsRot q) (p : Particle ℝ) (dz : ℝ)
+    (hflip : ∀ d', Op.flip d' ∈ ops → specDim d' p.tomo_id = some dz) (hns : ∀ op ∈ ops, isScale op = false)
+    (d : Dims ℝ) (hd : specDim d p.tomo_id = some dz) :
+    some (absPose realSvc (runOpsP realSvc ops p)) = (specRun (pushFlips false ops) (absPose realSvc p)).bind
+      (fun P' => if flipCount ops % 2 = 0 then some P' else specOp (.flip d) P') :=
+  history_flip_parity realSvc realSvc_csOdd ops p (runOK_of_global realSvc realSvc_unit realSvc_eulerOK ops hq p) dz hflip hns d hd
+
+/-- the hypotheses of `spec_history_flip_parity` are met by a history with two flips (a triple and a table giving the same plane),
+shifts, a rotation and an update; its normal form has no flip left and the operations between the flips are mirrored -/
+example : (∀ d', Op.flip d' ∈ exHist → specDim d' exP.tomo_id = some (40 : Rat)) ∧ (∀ op ∈ exHist, isScale op = false) ∧
+    flipCount exHist = 2 := by
+  refine ⟨?_, ?_, by decide⟩
+  · intro d' hd'
+    simp only [exHist, List.mem_cons, Op.flip.injEq, reduceCtorEq, List.not_mem_nil, or_false, false_or] at hd'
+    rcases hd' with rfl | rfl <;> decide +kernel
+  · intro op hop
+    simp only [exHist, List.mem_cons, List.not_mem_nil, or_false] at hop
+    rcases hop with rfl | rfl | rfl | rfl | rfl | rfl <;> rfl
 
 /-! ### non-vacuity: concrete services and inputs meeting every hypothesis above -/
 
